@@ -62,6 +62,10 @@ CLAIMED["C11"] = ("property-based testing (Hypothesis): generated request histor
          "Exploration: histories of load/eval/re-eval/call/manifest/gc/set_max_stack over sources sharing a lazily evaluated ext-var and a cached import, with explicit errors, assertion failures, type errors and stack overflows interleaved; outcomes (text; error variant, message, spans, stack) must match the fresh state.",
          "The oracle is the same implementation on a fresh state (the property is stated that way); a fresh-state StackOverflow is not compared when the long-lived state succeeds because memoisation legitimately needs fewer frames.",
          "DESIGN.md section 5 / C11")
+CLAIMED["C12"] = ("property-based testing with fault injection (Hypothesis): generated values x output modes x input forms x ext/TLA kinds run as real processes in private directories; enumerated I/O faults (missing/odd inputs, unwritable -o/-m targets, full/closed stdout)",
+         "Exploration + fault enumeration: the value is chosen first, so the expected exit status and the exact view per mode (-S, -y, -m, -o, --no-trailing-newline) are known by construction and every output is decoded and compared; 22 fault kinds must give exit 1 (2 for usage) with a message and no partial output.",
+         "Runs as root (permission faults cannot be produced, stated in DESIGN.md); the closed-descriptor case is an open known finding (D10).",
+         "DESIGN.md section 5 / C12")
 NOT_YET = {}
 
 def main():
